@@ -549,11 +549,16 @@ func check(prop, tier string) int {
 		histAll += sum.DistinctHist
 		sums = append(sums, sum)
 	}
+	// An engine failure in one scenario (a wedged or starved shard process, a step cap) is not a verdict about the
+	// library: the scenario counts as not explored, the run as not exhaustive, and the check goes on with the rest.
 	if len(engineErrs) > 0 {
+		exhaustive = false
 		for _, e := range engineErrs {
-			fmt.Println("ERROR", e)
+			if len(e) > 300 {
+				e = e[:300]
+			}
+			fmt.Println("  note: engine failure, scenario not counted as explored:", strings.ReplaceAll(e, "\n", " | "))
 		}
-		return 2
 	}
 
 	// triage: only violations of the property under check count; group by signature
@@ -687,6 +692,16 @@ func check(prop, tier string) int {
 	}
 	if len(samples) == 0 {
 		cov["samples"] = []string{"(no sample recorded)"}
+	}
+	if len(engineErrs) > 0 {
+		short := []string{}
+		for _, e := range engineErrs {
+			if len(e) > 200 {
+				e = e[:200]
+			}
+			short = append(short, e)
+		}
+		cov["engine_failures_not_explored"] = short
 	}
 	ev := map[string]any{
 		"property_id": prop,
